@@ -421,12 +421,14 @@ def parse(expr):
     from pymbolic import var
 
     def remove_backticks(expr):
+        # Returning None tells the substitutor to leave *expr* alone and
+        # to keep descending (e.g. into the index of a subscript).
         if not isinstance(expr, var):
-            return expr
+            return None
         varname = expr.name
         if varname.startswith("`") and varname.endswith("`"):
             return var(varname[1:-1])
-        return expr
+        return None
 
     from pymbolic.mapper.substitutor import SubstitutionMapper
     parser = _ExtendedParser()
